@@ -6,6 +6,33 @@
 
 #![allow(clippy::type_complexity)]
 #![allow(clippy::too_many_arguments)]
+#![allow(unexpected_cfgs)]
+
+// Verification hook (add-only, off unless built with `--cfg sux_verif`): a
+// module-local `std` that is the real one except that threads and atomics come
+// from the deterministic simulator, which then decides every interleaving of
+// the parallel shard solver below.
+#[cfg(sux_verif)]
+#[allow(unused_imports)]
+mod std {
+    pub use ::std::*;
+    pub mod thread {
+        pub use ::std::thread::*;
+        pub use ::verif_rt::thread::{
+            current, park, scope, sleep, spawn, yield_now, Builder, JoinHandle, Scope,
+            ScopedJoinHandle,
+        };
+    }
+    pub mod sync {
+        pub use ::std::sync::*;
+        pub mod atomic {
+            pub use ::std::sync::atomic::*;
+            pub use ::verif_rt::atomic::{
+                fence, AtomicBool, AtomicU32, AtomicU64, AtomicUsize,
+            };
+        }
+    }
+}
 
 use crate::bits::*;
 use crate::dict::VFilter;
